@@ -122,10 +122,8 @@ func (c permCase) setProfile() func() {
 	return func() { features.EnableAmbient, features.EnableAmbientWaypoints = a, w }
 }
 
-// orderedTypes are generated in the generator's own order; namedTypes answer a requested name set.
 var permTypes = []string{"CDS", "EDS", "LDS", "RDS", "ECDS", "NDS"}
 
-func namedType(t string) bool { return t == "EDS" || t == "RDS" || t == "ECDS" }
 
 // ---------------------------------------------------------------- case lines
 
@@ -377,7 +375,11 @@ func (w *world) fingerprintLines() []string {
 				if w.shared[key] {
 					typ = "ambsvc-shared-host"
 				}
-				lines = append(lines, fmt.Sprintf("%s %s %s src=%s/%s/%s wp=%s", typ, key, hex.EncodeToString(h[:6]), si.Source.Kind, si.Source.Namespace, si.Source.Name, si.Waypoint.ResourceName))
+				hs := hex.EncodeToString(h[:6])
+				if os.Getenv("C17_FPTEXT") != "" {
+					hs = prototext.MarshalOptions{}.Format(si.Service)
+				}
+				lines = append(lines, fmt.Sprintf("%s %s %s src=%s/%s/%s wp=%s", typ, key, hs, si.Source.Kind, si.Source.Namespace, si.Source.Name, si.Waypoint.ResourceName))
 			}
 		}
 	}
@@ -418,7 +420,11 @@ func (w *world) fingerprintLines() []string {
 			for _, wl := range model.ExtractWorkloadsFromAddresses(infos) {
 				b, _ := proto.MarshalOptions{Deterministic: true}.Marshal(wl.Workload)
 				h := sha256.Sum256(b)
-				lines = append(lines, "amb "+a+" "+wl.Workload.GetUid()+" "+hex.EncodeToString(h[:6]))
+				hs := hex.EncodeToString(h[:6])
+				if os.Getenv("C17_FPTEXT") != "" {
+					hs = prototext.MarshalOptions{}.Format(wl.Workload)
+				}
+				lines = append(lines, "amb "+a+" "+wl.Workload.GetUid()+" "+hs)
 			}
 		}
 	}
@@ -456,7 +462,7 @@ func lineDiff(a, b []string) string {
 			out = append(out, "+"+x)
 		}
 	}
-	if len(out) > 8 {
+	if len(out) > 8 && os.Getenv("C17_FPTEXT") == "" {
 		out = out[:8]
 	}
 	return strings.Join(out, " ; ")
@@ -529,6 +535,9 @@ type snapshot map[string][]resource // "<proxy>:<TYPE>" -> resources in response
 func setupProxy(w *world, p *model.Proxy, push *model.PushContext) *model.Proxy {
 	p.Metadata.IstioVersion = "1.23.0"
 	p.IstioVersion = model.ParseIstioVersion(p.Metadata.IstioVersion)
+	if p.WatchedResources == nil {
+		p.WatchedResources = map[string]*model.WatchedResource{}
+	}
 	p.SetSidecarScope(push)
 	p.SetServiceTargets(w.s.Env().ServiceDiscovery)
 	p.SetGatewaysForProxy(push)
@@ -644,11 +653,10 @@ func deltaCDS(w *world, p *model.Proxy, push *model.PushContext, cds []resource)
 	for _, r := range cds {
 		watched.Insert(r.name)
 		if _, _, h, _ := model.ParseSubsetKey(r.name); h != "" && n < 3 {
-			for _, svc := range push.ServicesForHostname(p, h) {
-				if updated.InsertContains(model.ConfigKey{Kind: kind.ServiceEntry, Name: string(h), Namespace: svc.Attributes.Namespace}) {
-					continue
+			if svc := push.ServiceForHostname(p, h); svc != nil {
+				if !updated.InsertContains(model.ConfigKey{Kind: kind.ServiceEntry, Name: string(h), Namespace: svc.Attributes.Namespace}) {
+					n++
 				}
-				n++
 			}
 		}
 	}
@@ -767,28 +775,31 @@ func digest(rs []resource, sorted bool) string {
 // ---------------------------------------------------------------- running a case
 
 type caseRun struct {
-	keys      []string            // observation keys in print order
-	digests   map[string][]string // key -> one digest per run
+	keys      []string            // snapshot keys (explain)
+	digests   map[string][]string // observation key -> one digest per run (per build for "state:*")
 	snaps     []snapshot          // kept only when `keepRaw`
 	runTag    []string            // "k/r" of each run
 	unsettled string
+	stateDiff string // first difference of a stable-but-different state (explain)
 	nres      int
 	nobjs     int
 	svcs      int // services listed by the registries in build 0
 	dupKeys   int // of which share the whole comparator key with another one (hypothesis of sortServices_canonical)
 }
 
+// insertionOrder: build 0 inserts in generation order before start; the others shuffle and insert a
+// prefix before start, the rest afterwards.
 func insertionOrder(c permCase, objs []obj, k int) ([]obj, int) {
 	if k == 0 {
 		return objs, len(objs)
 	}
 	r := wire.NewRng(c.seed*1000003 + uint64(k)*7919)
 	// Nodes exist before anything is scheduled on them: they stay in front, at start-up
-	// (a Node arriving after its Pods never refreshes the endpoints' locality - an event-order
-	// question that belongs to C15, not to generation).
+	// (a Node arriving after its Pods never refreshes the endpoints' locality; with C17_NODES_ANYWHERE
+	// they are permuted like everything else and the difference shows as perm:state-order:ep).
 	var nodes, p []obj
 	for _, o := range objs {
-		if o.feat == "node" {
+		if o.feat == "node" && os.Getenv("C17_NODES_ANYWHERE") == "" {
 			nodes = append(nodes, o)
 		} else {
 			p = append(p, o)
@@ -807,37 +818,56 @@ func insertionOrder(c permCase, objs []obj, k int) ([]obj, int) {
 	return append(nodes, p...), early + len(nodes)
 }
 
+func (cr *caseRun) add(key, d string) { cr.digests[key] = append(cr.digests[key], d) }
+
+func settleTimeout() time.Duration {
+	if ms := atoi(os.Getenv("C17_SETTLE_MS")); ms > 0 {
+		return time.Duration(ms) * time.Millisecond
+	}
+	return 30 * time.Second
+}
+
 func runCase(c permCase, keepRaw bool) (cr *caseRun) {
 	objs := c.objects()
 	mc := c.meshConfig()
 	defer c.setProfile()()
 	cr = &caseRun{digests: map[string][]string{}, nobjs: len(objs)}
+	shared := sharedHosts(objs)
 	want := ""
 	var wantLines []string
+	var states []map[string]string
 	for k := 0; k < c.k; k++ {
 		order, early := insertionOrder(c, objs, k)
 		w := buildWorld(order, early, mc)
 		w.proxies = c.proxies()
-		fp, ok := w.settle(want, 8*time.Second)
-		if !ok {
-			cr.unsettled = fmt.Sprintf("build=%d fingerprint=%s want=%s diff: %s", k, fp, want, lineDiff(wantLines, w.fingerprintLines()))
-			w.close()
-			return cr
-		}
-		if q := atoi(os.Getenv("C17_QUIET_MS")); q > 0 {
+		w.shared = shared
+		fp, st := w.settle(want, settleTimeout(), 1500*time.Millisecond)
+		if q := atoi(os.Getenv("C17_QUIET_MS")); q > 0 && st != moving {
 			// confirmation runs: the state must also survive a long quiet period unchanged
 			for i := 0; i < 5; i++ {
 				time.Sleep(time.Duration(q) * time.Millisecond)
-				fp2, ok2 := w.settle(want, 8*time.Second)
-				if ok2 && fp2 == fp {
+				fp2, st2 := w.settle(want, settleTimeout(), 1500*time.Millisecond)
+				same := fp2 == fp
+				fp, st = fp2, st2
+				if same || st == moving {
 					break
 				}
-				fp = fp2
 			}
+		}
+		if st == moving {
+			cr.unsettled = fmt.Sprintf("build=%d still moving after %v fingerprint=%s want=%s diff: %s", k, settleTimeout(), fp, want, lineDiff(wantLines, w.fingerprintLines()))
+			w.close()
+			return cr
+		}
+		lines := w.fingerprintLines()
+		states = append(states, sectionDigests(lines))
+		if st == stableDifferent && cr.stateDiff == "" {
+			// the control plane came to rest in a different state: what differs is judged as an observation of its own
+			cr.stateDiff = fmt.Sprintf("build=%d: %s", k, lineDiff(wantLines, lines))
 		}
 		if k == 0 {
 			want = fp
-			wantLines = w.fingerprintLines()
+			wantLines = lines
 			seen := map[string]bool{}
 			for _, sv := range w.s.Env().ServiceDiscovery.Services() {
 				key := fmt.Sprintf("%d|%s|%s|%s|%s|%s", sv.CreationTime.UnixNano(), sv.Attributes.Name, sv.Attributes.Namespace,
@@ -866,8 +896,16 @@ func runCase(c permCase, keepRaw bool) (cr *caseRun) {
 				sort.Strings(cr.keys)
 			}
 			for _, key := range cr.keys {
-				cr.digests[key] = append(cr.digests[key], digest(snap[key], true))
-				cr.digests[key+".order"] = append(cr.digests[key+".order"], digest(snap[key], false))
+				rs := snap[key]
+				if base, ok := strings.CutSuffix(key, ".viaset"); ok {
+					// same request through the xDS generator: the content must be that of the direct call,
+					// the order follows the iteration of the requested name set
+					cr.add(base, digest(rs, true))
+					cr.add(base+".setorder", digest(rs, false))
+				} else {
+					cr.add(key, digest(rs, true))
+					cr.add(key+".order", digest(rs, false))
+				}
 			}
 			if keepRaw {
 				cr.snaps = append(cr.snaps, snap)
@@ -875,26 +913,48 @@ func runCase(c permCase, keepRaw bool) (cr *caseRun) {
 			}
 		}
 		// the state must not have moved while we were generating
-		if fp2 := w.fingerprint(); fp2 != want {
-			cr.unsettled = fmt.Sprintf("build=%d fingerprint moved during generation %s -> %s", k, want, fp2)
+		if fp2 := w.fingerprint(); fp2 != fp {
+			cr.unsettled = fmt.Sprintf("build=%d fingerprint moved during generation %s -> %s", k, fp, fp2)
 			w.close()
 			return cr
 		}
 		w.close()
 	}
+	secs := sets.New[string]()
+	for _, st := range states {
+		for sec := range st {
+			secs.Insert(sec)
+		}
+	}
+	for _, sec := range sets.SortedList(secs) {
+		for _, st := range states {
+			d, ok := st[sec]
+			if !ok {
+				d = "0."
+			}
+			cr.add("state:"+sec, d)
+		}
+	}
 	return cr
 }
 
+// obsKeys: the observation keys in print order (state first).
 func (cr *caseRun) obsKeys() []string {
-	var out []string
-	for _, k := range cr.keys {
-		out = append(out, k)
-		if _, ok := cr.digests[k+".order"]; ok {
-			out = append(out, k+".order")
+	var st, rest []string
+	for k := range cr.digests {
+		if strings.HasPrefix(k, "state:") {
+			st = append(st, k)
+		} else {
+			rest = append(rest, k)
 		}
 	}
-	return out
+	sort.Strings(st)
+	sort.Strings(rest)
+	return append(st, rest...)
 }
+
+// orderKey: an observation of the ORDER of a response (as opposed to its content).
+func orderKey(k string) bool { return strings.HasSuffix(k, ".order") || strings.HasSuffix(k, ".setorder") }
 
 func allEqual(l []string) bool {
 	for _, x := range l {
@@ -936,6 +996,9 @@ func observePerm(in, outp string) {
 		}
 		sort.Strings(fl)
 		out.Line("info", "feat="+joinElems(fl), "svcs="+strconv.Itoa(cr.svcs), "dupkeys="+strconv.Itoa(cr.dupKeys))
+		if cr.stateDiff != "" {
+			out.Line("info", "statediff="+wire.Enc(cr.stateDiff))
+		}
 		if cr.unsettled != "" {
 			out.Line("skip", wire.Enc(cr.unsettled))
 		} else {
@@ -975,22 +1038,27 @@ func execMon(in, outp string) {
 	}
 }
 
-// oracleMon: one verdict per case. A difference that is only the response order of a type that
-// answers a requested name set is classified separately (`order-only`).
+// oracleMon: one verdict per case: state (the control plane holds a different state after a different
+// insertion order), content, order, or only the documented order of a response that follows the
+// iteration of the requested name set.
 func oracleMon(in, outp string) {
 	out := wire.Create(outp)
 	defer out.Close()
 	started := false
-	var bad, orderOnly []string
+	var state, bad, order, setOrder []string
 	flush := func() {
 		if !started {
 			return
 		}
 		switch {
+		case len(state) > 0:
+			out.Line("FAIL", "state-order", joinElems(state))
 		case len(bad) > 0:
 			out.Line("FAIL", "content", joinElems(bad))
-		case len(orderOnly) > 0:
-			out.Line("FAIL", "response-order", joinElems(orderOnly))
+		case len(order) > 0:
+			out.Line("FAIL", "order", joinElems(order))
+		case len(setOrder) > 0:
+			out.Line("FAIL", "response-order-of-requested-set", joinElems(setOrder))
 		default:
 			out.Line("OK")
 		}
@@ -998,13 +1066,18 @@ func oracleMon(in, outp string) {
 	for _, f := range wire.ReadLines(in) {
 		if f[0] == "case" {
 			flush()
-			started, bad, orderOnly = true, nil, nil
+			started, state, bad, order, setOrder = true, nil, nil, nil, nil
 			continue
 		}
 		if f[0] == "obs" && len(f) > 2 && !allEqual(f[2:]) {
-			if strings.HasSuffix(f[1], ".order") {
-				orderOnly = append(orderOnly, f[1])
-			} else {
+			switch {
+			case strings.HasPrefix(f[1], "state:"):
+				state = append(state, f[1])
+			case strings.HasSuffix(f[1], ".setorder"):
+				setOrder = append(setOrder, f[1])
+			case strings.HasSuffix(f[1], ".order"):
+				order = append(order, f[1])
+			default:
 				bad = append(bad, f[1])
 			}
 		}
@@ -1031,7 +1104,7 @@ func caseVerdict(c permCase, contentOnly bool) string {
 	}
 	var bad []string
 	for _, k := range cr.obsKeys() {
-		if contentOnly && strings.HasSuffix(k, ".order") {
+		if contentOnly && orderKey(k) {
 			continue
 		}
 		if !allEqual(cr.digests[k]) {
@@ -1178,9 +1251,9 @@ func explainPerm(in string) {
 			if cr.unsettled != "" {
 				break
 			}
-			hasContent := false
-			for _, key := range cr.keys {
-				if !allEqual(cr.digests[key]) {
+			hasContent := cr.stateDiff != ""
+			for _, key := range cr.obsKeys() {
+				if !orderKey(key) && !allEqual(cr.digests[key]) {
 					hasContent = true
 				}
 			}
@@ -1192,8 +1265,11 @@ func explainPerm(in string) {
 			fmt.Println("  unsettled:", cr.unsettled)
 			continue
 		}
+		if cr.stateDiff != "" {
+			fmt.Println("  STATE differs after a different insertion order (differences of generated resources follow from it):")
+			fmt.Println("   ", cr.stateDiff)
+		}
 		for _, key := range cr.keys {
-			typ := key[strings.Index(key, ":")+1:]
 			ref := cr.snaps[0][key]
 			// content first: the first run whose name-sorted digest differs from run 0
 			content := -1
@@ -1247,7 +1323,7 @@ func explainPerm(in string) {
 						}
 					}
 				}
-			} else if order >= 0 && !namedType(typ) {
+			} else if order >= 0 && !strings.HasSuffix(key, ".viaset") {
 				fmt.Printf("  %s: ORDER differs between %s and %s\n", key, cr.runTag[0], cr.runTag[order])
 				a, b := names(ref), names(cr.snaps[order][key])
 				for i := range a {
